@@ -217,11 +217,34 @@ pub struct World {
     uid2label: HashMap<UniqueId, u64>,
     next_uid: u64,
     pub all_labels: BTreeSet<u64>,
+    /// counts clone operations; every other one is preceded by a clone call that fails (see `fault_before_clone`)
+    clone_tick: u64,
 }
 
 impl World {
+    /// A clone call that FAILS, on the same thread and from the same source DOM, right before a real clone operation: the
+    /// top-level instances of the source plus a referent that does not exist are cloned into a scratch DOM, which panics
+    /// part-way (caught).  The source is borrowed immutably and the scratch DOM is dropped, so nothing the history can
+    /// observe may change: whatever a failed call leaves behind (per-thread scratch state, a half-filled rewrite table)
+    /// must not leak into the next call.  The model knows nothing of this call.
+    fn fault_before_clone(&mut self, d: usize) {
+        self.clone_tick += 1;
+        if self.clone_tick % 2 == 1 || d >= self.doms.len() {
+            return;
+        }
+        let src = &self.doms[d];
+        let mut roots: Vec<Ref> = src.root().children().to_vec();
+        roots.insert(0, src.root_ref());
+        roots.push(Ref::new());
+        let _ = catch_unwind(AssertUnwindSafe(|| {
+            let mut scratch = WeakDom::new(InstanceBuilder::new("Scratch"));
+            let _ = src.clone_multiple_into_external(&roots, &mut scratch);
+        }));
+    }
+
     pub fn new() -> World {
         let mut w = World {
+            clone_tick: 0,
             doms: Vec::new(),
             ref2label: HashMap::new(),
             label2ref: HashMap::new(),
@@ -425,6 +448,7 @@ impl World {
                 }
                 Op::CloneWithin(d, r) => {
                     let rr = self.rref(*r);
+                    self.fault_before_clone(*d);
                     let root = self.doms[*d].clone_within(rr);
                     self.discover_clones(*d, &[root]);
                     vec![self.label_of(root)]
@@ -434,6 +458,7 @@ impl World {
                     if d == d2 {
                         panic!("same dom");
                     }
+                    self.fault_before_clone(*d);
                     let (a, b) = two_mut(&mut self.doms, *d, *d2);
                     let root = a.clone_into_external(rr, b);
                     self.discover_clones(*d2, &[root]);
@@ -444,6 +469,7 @@ impl World {
                     if d == d2 {
                         panic!("same dom");
                     }
+                    self.fault_before_clone(*d);
                     let (a, b) = two_mut(&mut self.doms, *d, *d2);
                     let roots = a.clone_multiple_into_external(&rrs, b);
                     self.discover_clones(*d2, &roots);
